@@ -18,6 +18,7 @@ type RuleDecl struct {
 	Name string `json:"name"`
 	Sal  int64  `json:"sal"`
 	Tpl  string `json:"tpl"`
+	FK   string `json:"fk,omitempty"` // how a "fail" outcome is produced: "" = panicking injected function, else a fault snippet
 }
 
 type Call struct {
@@ -31,6 +32,7 @@ type Call struct {
 	Dag    [][]string        `json:"dag"`
 	Beh    map[string]string `json:"beh"`
 	TagSet []string          `json:"tagset"`
+	Twin   bool              `json:"twin,omitempty"` // repeats the previous call through the stop-tag variant of its method (C14)
 }
 
 func EngineCall(g *engine.Gengine, rb *builder.RuleBuilder, c *Call, st *engine.Stag) error {
